@@ -8,7 +8,7 @@ A state is the history that reaches it.  ``Exec.run(pool, history)`` replays the
 clean slate (no handle held, gc.collect() done, interpretation stack at its base) while the boring model of
 ``fv.ref.hashcons`` is stepped in lockstep; after every event the invariants listed in ``LEVEL_RULE`` are evaluated
 on the real objects and compared with the model.  States are de-duplicated on the canonical form ``hashcons.canon``.
-The recipe pool (61 recipes) is explored per sub-pool (every recipe alone, every pair of same-kind recipes, in the
+The recipe pool (66 recipes) is explored per sub-pool (every recipe alone, every pair of same-kind recipes, in the
 thorough tier also every same-kind triple): histories over a sub-pool use every event that is relevant to it.
 """
 import copy
@@ -104,7 +104,7 @@ from funsor.gaussian import Gaussian
 from funsor.interpretations import normalize
 from funsor.interpreter import reinterpret
 from funsor.tensor import Tensor
-from funsor.terms import Binary, Lambda, Number, Reduce, Slice, Stack, Subs, Variable, eager, lazy, reflect
+from funsor.terms import Binary, Lambda, Number, Reduce, Slice, Stack, Subs, Unary, Variable, eager, lazy, reflect
 class _T:  # owner of bound methods / a callable object, for the wrapped ops
     def ladj(self, x, y): return x
     def ladj2(self, x, y): return y
@@ -378,7 +378,13 @@ class Exec:
         if isinstance(x, slice):
             return ("slice", x.start, x.stop, x.step)
         if isinstance(x, e.Op):
-            return ("op", type(x).__name__, tuple(sorted((k, self.walk(v, None, [])) for k, v in x.defaults.items())))
+            dfl = dict(x.defaults)
+            if type(x).__name__ == "GetsliceOp" and not isinstance(dfl.get("index"), tuple):
+                dfl["index"] = (dfl["index"],)  # a bare index IS the 1-tuple of it (whichever spelling came first)
+            s = ("op", type(x).__name__, tuple(sorted((k, self.walk(v, None, [])) for k, v in dfl.items())))
+            if expr is not None:
+                out.append((x, s, expr))
+            return s
         if isinstance(x, e.ArrayType):
             s = ("dom", repr(x))
             out.append((x, s, expr))
@@ -400,7 +406,9 @@ class Exec:
         found = []
         raw = self.walk(obj, expr, found)
         if not found or found[-1][0] is not obj:
-            found.append((obj, raw, expr))  # ops and parametrised types: only the top object is registered
+            found.append((obj, raw, expr))  # parametrised types: only the top object is registered
+        if isinstance(obj, self.e.Funsor) and isinstance(obj.output, self.e.ArrayType):
+            found.insert(0, (obj.output, ("dom", repr(obj.output)), expr + ".output"))  # kept alive by the term
         ents = []
         n = 0
         memo = {}
@@ -623,6 +631,8 @@ class Exec:
             try:
                 res = eval(e.code[r], e.ns)
             except Exception as exc:  # the constructor itself raised: a decline (BUILDERS rule 2), counted
+                if isinstance(exc, (NameError, SyntaxError)):
+                    raise HarnessError("recipe %s: %r" % (r, exc))
                 raise Declined("c:%s:%s" % (r, type(exc).__name__))
             # other spellings of the SAME arguments (keywords in any order, mixed positional/keyword, defaults
             # written out, f(**subs) in any order): each must give the identical object
@@ -630,6 +640,8 @@ class Exec:
                 try:
                     alt = eval(alt_code, e.ns)
                 except Exception as exc:  # this spelling raises: a decline, counted; the others are still tried
+                    if isinstance(exc, (NameError, SyntaxError)):
+                        raise HarnessError("recipe %s, spelling %s: %r" % (r, alt_src, exc))
                     self.counters["decline:spelling:%s:%s" % (r, type(exc).__name__)] += 1
                     continue
                 if alt is not res:
@@ -1097,21 +1109,23 @@ _CROSSCHECK_PAIRS = [
     ("var7", "dB7"), ("dB7", "dProd"), ("dR5", "dProd"), ("dProd", "dProd2"), ("dB75", "dR5"), ("dR5", "dR57"), ("dR5", "dR7"), ("lam", "dR5"),
     ("oS0", "oS1"), ("oSl", "oSl2"), ("oSl", "oSl3"), ("oSlA1", "oSlA2"), ("oSlB1", "oSlB2"), ("oSlC1", "oSlC2"), ("oSf1", "oSf2"),
     ("oRs", "oRs3"), ("oSlD1", "oSlD2"), ("oSlE1", "oSlE2"), ("oSlB1", "oSlF2"), ("oW1", "oW2"), ("oW4", "oW5"), ("oW4", "oW6"),
-    ("tN1", "tN2"),
+    ("tN1", "tN2"), ("sl1", "sl2"), ("sl1", "oSlS"), ("sl1", "dR1311"),
 ]
 
 
 def plan(tier):
     names = [r.name for r in H.RECIPE_LIST]
-    kind = {r.name: r.kind for r in H.RECIPE_LIST}
+    kind = {r.name: r.group for r in H.RECIPE_LIST}
     depth = 7 if tier == "thorough" else 5
     jobs = [{"mode": "merged", "pool": [n], "depth": depth} for n in names]
     pairs = [p for p in combinations(names, 2) if kind[p[0]] == kind[p[1]]]
     pairs += [(t, n) for t in ("var7", "lam") for n in names if kind[n] == "dom"]
+    pairs += [("sl1", "oSlS"), ("sl1", "dR1311"), ("sl2", "dR1311"), ("sl1", "var")]
     jobs += [{"mode": "merged", "pool": list(p), "depth": depth} for p in pairs]
     if tier == "thorough":
         triples = [t for t in combinations(names, 3) if len({kind[n] for n in t}) == 1]
         triples += [("var7",) + p for p in combinations([n for n in names if kind[n] == "dom"], 2)]
+        triples += [("sl1", "oSlS", "dR1311"), ("sl1", "sl2", "oSlS")]
         jobs += [{"mode": "merged", "pool": list(t), "depth": 5} for t in triples]
         jobs += [{"mode": "crosscheck", "pool": [n], "depth": 4, "frozen": False} for n in names]
         jobs += [{"mode": "crosscheck", "pool": list(p), "depth": 4, "frozen": True} for p in _CROSSCHECK_PAIRS]
